@@ -120,7 +120,11 @@ func (c Counter) Addn(k string, n int) { c[k] += n }
 
 func (c Counter) Merge(o Counter) {
 	for k, v := range o {
-		c[k] += v
+		if strings.HasPrefix(k, "max-") {
+			c[k] = max(c[k], v)
+		} else {
+			c[k] += v
+		}
 	}
 }
 
